@@ -25,3 +25,16 @@ package vswarm
 //@   ensures [negative] ret1 == nil ==> ret0 >= 0
 //@   before call (*AskHub).Deliver:
 //@     assert [payload] len(arg3.Payload) == sumlen(lens(v), len(v)) && arg3.Src == src && arg3.Dst == dst && arg2 == resp
+
+// Close (through the realm's Drop) closes the swarm's receive queue and its ask hub
+//@ func (*SecureRealm).Drop
+//@   noframe
+//@   allowpanic
+//@   requires r != nil && s != nil && inv(s.tells) && inv(s.asks)
+//@   ensures [hubsclosed] closed(old(s.tells.closed)) && closed(old(s.asks.closed))
+//@
+//@ func (*SecureSwarm).Close
+//@   noframe
+//@   allowpanic
+//@   requires s != nil && s.r != nil && inv(s.tells) && inv(s.asks)
+//@   ensures [hubsclosed] closed(old(s.tells.closed)) && closed(old(s.asks.closed))
